@@ -1346,16 +1346,15 @@ func mulF(x, y Float) (Float, error) {
 }
 
 func divF(x, y Float) (Float, error) {
-	switch {
-	case y == 0:
+	if y == 0 {
 		return 0, exceptionalValueZeroDivisor
-	case x > math.MaxFloat64*y:
-		return 0, exceptionalValueFloatOverflow
-	case x < -math.MaxFloat64*y:
-		return 0, exceptionalValueFloatOverflow
 	}
 
 	r := x / y
+
+	if math.IsInf(float64(r), 0) {
+		return 0, exceptionalValueFloatOverflow
+	}
 
 	// Underflow: x/y = 0 iff x = 0 and y != 0.
 	if r == 0 && x != 0 {
